@@ -185,4 +185,31 @@ theorem xorContext_involutive (m c : Bytes) : xorContext (xorContext m c) c = m 
 theorem xorContext_injective (m m' c : Bytes) (h : xorContext m c = xorContext m' c) : m = m' := by
   rw [← xorContext_involutive m c, h, xorContext_involutive]
 
+/-! ### sequential composition (`DeriveEd25519Key` after `DeriveKey`) -/
+
+/-- running `p.andThen k` = running `p`, then `k` on its value -/
+theorem run_andThen (P : Prims) (p : Prog (Outcome Bytes)) (k : Bytes → Prog (Outcome β)) :
+    (p.andThen k).run P =
+      match p.run P with
+      | .ok b => (k b).run P
+      | .err => .err
+      | .panic => .panic := by
+  induction p with
+  | done o => cases o <;> simp [Prog.andThen, bindO]
+  | ask r c ih => simp only [Prog.andThen, run_ask]; exact ih (P r)
+
+theorem andThen_ok (P : Prims) (p : Prog (Outcome Bytes)) (k : Bytes → Prog (Outcome β)) (v : β) :
+    (p.andThen k).run P = .ok v ↔ ∃ b, p.run P = .ok b ∧ (k b).run P = .ok v := by
+  rw [run_andThen]
+  cases p.run P <;> simp
+
+theorem np_andThen (P : Prims) (p : Prog (Outcome Bytes)) (k : Bytes → Prog (Outcome β))
+    (hp : NP P p) (hk : ∀ b, p.run P = .ok b → NP P (k b)) : NP P (p.andThen k) := by
+  unfold NP at *
+  rw [run_andThen]
+  cases h : p.run P with
+  | ok b => exact hk b h
+  | err => simp
+  | panic => exact absurd h hp
+
 end Bifrost.Encrypt
